@@ -97,21 +97,25 @@ def obligations(tier):
     QMTP = dict(
         progs=[Prog("qmail-qmtpd.c", sub=[(r"^main\(\)", "qmtpd_main()", 1)])],
         repo=["fmt_ulong.c", "fmt_str.c", "stralloc_opys.c", "stralloc_opyb.c", "stralloc_pend.c", "byte_copy.c"],
-        lib=["ideal_substdio.c", "arena_stralloc.c"],
+        lib=["arena_stralloc.c"],
         sysrename=["_exit", "read", "write", "alarm", "chdir", "time"],
         timeout=1500,
         functions=["qmail-qmtpd.c:main", "qmail-qmtpd.c:getlen", "qmail-qmtpd.c:getcomma", "qmail-qmtpd.c:saferead", "fmt_ulong.c", "fmt_str.c",
                    "stralloc_opys.c", "stralloc_opyb.c", "stralloc_pend.c"],
         cuts=["qmail_open/put/from/to/fail/close -> contract proved by qmail_unit", "received -> marker (received_safe)",
               "rcpthosts -> arbitrary verdict 1/0/-1 per call, arguments checked (meaning: C08 rcpthosts_ref)"],
-        stubs=["substdio: ideal streams; read() returns the next byte, 0 after the last", "env_get: RELAYCLIENT unset or \"@r\"; control_readint: databytes = DB",
+        stubs=["substdio_get/put/flush: ideal streams at chunk granularity, defined in the harness; read() returns the next byte, 0 after the last or after the first complete package", "env_get: RELAYCLIENT unset or \"@r\"; control_readint: databytes = DB",
                "control_init/qmail_open may fail; sig_*, alarm, chdir: no-ops; time(): constant", "stralloc_ready/readyplus: arena"],
         outside=["connections longer than the grid", "a second complete package on the same connection", "write errors towards the client", "SIGALRM"])
     obls.append(Obl("qmtpd_main", "qmtpd.c",
         defines={"ARENA_CAP": 16, "ARENA_SLOTS": 1},
         grid=[{"N": n, "DB": 0} for n in (range(0, 14) if q else range(0, 14))],
         unwind_default=lambda p: p["N"] + 3,
-        unwind={"substdio_put": 72, "strlen": 72, "fmt_ulong": 4, "fmt_str": 8},
+        # the per-package loop: a second package is started (it reads the EOF) but can never be completed inside the bound,
+        # which the unwinding assertion proves; the more specific key (inner length loop) must come first
+        unwind=lambda p: {"qmtpd_main~      for (;;) {": p["N"] + 3, "qmtpd_main~for (;;) {": 2,
+                          "qmtpd_main~i < failure.len": p["N"] // 3 + 3,
+                          "strlen": 72, "fmt_ulong": 4, "fmt_str": 8},
         assumes=["the client sends exactly N arbitrary bytes and disconnects; databytes = DB; qmail-queue outcome ok/permanent/temporary; "
                  "one write failure anywhere; RELAYCLIENT unset or set"],
         claim="for every N-byte connection: K only after a successful close, replies exactly per recipient (K iff acceptable and queued, D for policy), "
